@@ -291,6 +291,7 @@ func (f *Fetcher) loop() {
 					if f.getBlock(hash) == nil {
 						request[announce.origin] = append(request[announce.origin], hash)
 						f.fetching[hash] = announce
+						f.announces[announce.origin]++ // the fetch counts against its origin until forgetHash removes it
 					}
 				}
 			}
